@@ -21,6 +21,7 @@ import (
 	"net"
 	"os"
 	"path/filepath"
+	"reflect"
 	"sync"
 	"sync/atomic"
 	"testing"
@@ -161,10 +162,12 @@ func verifPipeline(req *verifRequest) (resp verifResponse) {
 	if req.Mirror && req.MirrorWorkers > 0 && req.MirrorLive {
 		switch req.Proto {
 		case "ipfix":
-			opts.IPFIXMirrorAddr, opts.IPFIXMirrorPort, opts.IPFIXMirrorWorkers = req.MirrorDst, req.MirrorPort, req.MirrorWorkers
+			opts.IPFIXMirrorAddr, opts.IPFIXMirrorPort = req.MirrorDst, req.MirrorPort
+			verifSetInt(&opts.IPFIXMirrorWorkers, req.MirrorWorkers)
 			go mirrorIPFIXDispatcher(ipfixMCh)
 		case "sflow":
-			opts.SFlowMirrorAddr, opts.SFlowMirrorPort, opts.SFlowMirrorWorkers = req.MirrorDst, req.MirrorPort, req.MirrorWorkers
+			opts.SFlowMirrorAddr, opts.SFlowMirrorPort = req.MirrorDst, req.MirrorPort
+			verifSetInt(&opts.SFlowMirrorWorkers, req.MirrorWorkers)
 			go mirrorSFlowDispatcher(sFlowMCh)
 		}
 		// the dispatcher switches mirroring on itself once its workers run
@@ -346,7 +349,8 @@ func verifPipeline(req *verifRequest) (resp verifResponse) {
 			switch req.Proto {
 			case "ipfix":
 				if dispIPFIX == nil {
-					opts.IPFIXMirrorAddr, opts.IPFIXMirrorPort, opts.IPFIXMirrorWorkers = req.MirrorDst, req.MirrorPort, req.MirrorWorkers
+					opts.IPFIXMirrorAddr, opts.IPFIXMirrorPort = req.MirrorDst, req.MirrorPort
+					verifSetInt(&opts.IPFIXMirrorWorkers, req.MirrorWorkers)
 					dispIPFIX = make(chan IPFIXUDPMsg, 1000)
 					go mirrorIPFIXDispatcher(dispIPFIX)
 				}
@@ -365,7 +369,8 @@ func verifPipeline(req *verifRequest) (resp verifResponse) {
 				}
 			case "sflow":
 				if dispSFlow == nil {
-					opts.SFlowMirrorAddr, opts.SFlowMirrorPort, opts.SFlowMirrorWorkers = req.MirrorDst, req.MirrorPort, req.MirrorWorkers
+					opts.SFlowMirrorAddr, opts.SFlowMirrorPort = req.MirrorDst, req.MirrorPort
+					verifSetInt(&opts.SFlowMirrorWorkers, req.MirrorWorkers)
 					dispSFlow = make(chan SFUDPMsg, 1000)
 					go mirrorSFlowDispatcher(dispSFlow)
 				}
@@ -568,5 +573,17 @@ func TestVerifDriver(t *testing.T) {
 		if err != nil {
 			return
 		}
+	}
+}
+
+// verifSetInt stores v in *p whatever integer kind the option has (the driver must build against trees in which an
+// option changed its integer type).
+func verifSetInt(p interface{}, v int) {
+	e := reflect.ValueOf(p).Elem()
+	switch e.Kind() {
+	case reflect.Int, reflect.Int8, reflect.Int16, reflect.Int32, reflect.Int64:
+		e.SetInt(int64(v))
+	case reflect.Uint, reflect.Uint8, reflect.Uint16, reflect.Uint32, reflect.Uint64:
+		e.SetUint(uint64(v))
 	}
 }
